@@ -69,6 +69,8 @@ NumInfoOk(ev) ==
      /\ r.u64 = AsU64(n)
      /\ r.f64 = <<Tup(AsF64(n))>>
      /\ (n.r # "f" => Tup(r.disp) = Tup(IntText(n)))
+     \* a finite float is displayed as a decimal that rounds back to exactly its bits
+     /\ (n.r = "f" /\ IsFiniteNum(n) => RNVerdict(r.disp, Bits(n)) # "no")
 
 NumDecodeOk(ev) ==
   LET p == ev.inp[1]
@@ -156,6 +158,9 @@ CastsOk(ev) ==
          ELSE IF isbool THEN r.to_f64 = RBytes(IF bv THEN FOne8 ELSE Zero8)
          ELSE IF isstr /\ ParseInt(sv, TRUE) # <<>> THEN r.to_f64 = RBytes(AsF64(N("i", ParseInt(sv, TRUE)[1])))
          ELSE IF isstr /\ ParseInt(sv, FALSE) # <<>> THEN r.to_f64 = RBytes(AsF64(N("u", ParseInt(sv, FALSE)[1])))
+         \* a string holding an RFC 8259 number: the nearest double (decided by exact arithmetic)
+         ELSE IF isstr /\ Len(sv) > 0 /\ NumLex(sv, 1).end = Len(sv) + 1
+              THEN r.to_f64.t = "bytes" /\ RNVerdict(sv, BytesToBits(r.to_f64.v)) # "no"
          ELSE IF isstr /\ Len(sv) > 0 /\ (\A i \in 1..Len(sv) : sv[i] \in FloatChars)
               THEN r.to_f64.t \in {"bytes", "err"}      \* other float spellings: not specified here
          ELSE r.to_f64 = InvalidCast)
@@ -164,7 +169,8 @@ CastsOk(ev) ==
      /\ (IF isstr THEN r.to_str = RStr(sv)
          ELSE IF isbool THEN r.to_str = RStr(IF bv THEN TrueBytes ELSE FalseBytes)
          ELSE IF isnum /\ n.r # "f" THEN r.to_str = RStr(IntText(n))
-         ELSE IF isnum THEN r.to_str.t = "str"          \* float digits: decided by the rendering check
+         ELSE IF isnum /\ IsFiniteNum(n) THEN r.to_str.t = "str" /\ RNVerdict(r.to_str.v, Bits(n)) # "no"
+         ELSE IF isnum THEN r.to_str.t = "str"          \* NaN and the infinities have no JSON spelling
          ELSE r.to_str = InvalidCast)
      /\ r.is_array = RBool(d.k = "arr")
      /\ r.is_object = RBool(d.k = "obj")
